@@ -157,7 +157,7 @@ def parse_results(out, wanted):
     return res
 
 
-def run_group(pid, groups, tier, only=None):
+def run_group(pid, groups, tier, only=None, known_ids=()):
     """run all harnesses serving property `pid`"""
     t0 = time.time()
     res = {"status": "ok", "reason": "", "obligations": [], "failures": [], "trusted": [], "bounded": [], "harness_times": [], "cmd": ""}
@@ -209,6 +209,10 @@ def run_group(pid, groups, tier, only=None):
                     if r["status"] == "failed":
                         fail = {"obligation": h["id"], "props": h["props"], "message": "kani: " + r["detail"].split("\n")[0],
                                 "rendered": r["detail"], "repo_loc": None, "clause": ob["text"], "harness": h, "replayed": False}
+                        if h["id"] in known_ids:
+                            fail["cex"] = []
+                            res["failures"].append(fail)
+                            continue
                         # counterexample + replay on the real code
                         cex = concrete_playback(sc, h)
                         fail["cex"] = cex
